@@ -5,6 +5,7 @@ package e3
 import (
 	"encoding/binary"
 	"fmt"
+	"math"
 	"runtime/debug"
 	"strings"
 
@@ -33,8 +34,21 @@ type node struct {
 	boot    bool // initial member: bootstraps; otherwise joins with empty storage
 
 	// durable (with ms)
-	persisted bool         // something was ever written to ms
-	hs        pb.HardState // last persisted hard state
+	persisted bool         // something durable exists (a sync point was reached)
+	hs        pb.HardState // last written hard state (= what ms holds)
+
+	// Write-behind model of the disk, honouring Ready.MustSync the way a WAL
+	// does: what a Ready with MustSync=false hands over is written but volatile;
+	// persisting a later Ready with MustSync=true (or a snapshot — saving one
+	// fsyncs) makes everything written before it durable too.  ms holds what is
+	// written (the library reads it back); the fields below remember what of it
+	// is durable, so that a crash can take the volatile suffix away.
+	volatile    bool         // something was written since the last sync
+	durHS       pb.HardState // hard state as of the last sync
+	volEnts     bool         // entries were written since the last sync (never, in the unchanged library)
+	durEnts     []pb.Entry   // if volEnts: the log as of the last sync
+	volCritical bool         // the volatile suffix holds a term or vote change, or entries
+	volExternal bool         // ... and messages were sent after that was written
 
 	// volatile application state
 	cs        pb.ConfState // configuration as of appCursor
@@ -228,6 +242,9 @@ func (s *sim) raftConfig(n *node, applied uint64) *raft.Config {
 
 // start (re)creates the RawNode of n from what is durable.
 func (s *sim) start(n *node) {
+	if n.volatile { // unsynced writes that survived the crash are on disk: durable from here on
+		n.synced()
+	}
 	s.guard("start", func() {
 		if !n.persisted {
 			// Nothing durable: this is the fresh node it always was.  (Restarting a
@@ -316,28 +333,28 @@ func (s *sim) pump(n *node) {
 		}
 		if at == crashBeforePersist {
 			s.fault(crashNames[at])
-			s.crash(n, crashNames[at])
+			s.powerFail(n, crashNames[at])
 			return
 		}
 		s.persist(n, &rd)
 		if at == crashAfterPersist || s.viol != nil {
 			if s.viol == nil {
 				s.fault(crashNames[at])
-				s.crash(n, crashNames[at])
+				s.powerFail(n, crashNames[at])
 			}
 			return
 		}
 		s.send(n, rd.Messages)
 		if at == crashAfterSend {
 			s.fault(crashNames[at])
-			s.crash(n, crashNames[at])
+			s.powerFail(n, crashNames[at])
 			return
 		}
 		s.apply(n, &rd)
 		if at == crashAfterApply || s.viol != nil {
 			if s.viol == nil {
 				s.fault(crashNames[at])
-				s.crash(n, crashNames[at])
+				s.powerFail(n, crashNames[at])
 			}
 			return
 		}
@@ -347,28 +364,113 @@ func (s *sim) pump(n *node) {
 
 func (s *sim) persist(n *node, rd *raft.Ready) {
 	s.guard("persist", func() {
+		// saving a snapshot fsyncs (snapshot file, then a synced WAL record)
+		sync := rd.MustSync || !raft.IsEmptySnap(rd.Snapshot)
+		wrote := false
 		if !raft.IsEmptySnap(rd.Snapshot) {
 			if err := n.ms.ApplySnapshot(rd.Snapshot); err != nil {
 				s.fail("storage/snapshot-out-of-date", "node %d: Ready carries snapshot %d but storage refuses it: %v",
 					n.id, rd.Snapshot.Metadata.Index, err)
 				return
 			}
-			n.persisted = true
+			wrote = true
 		}
 		if len(rd.Entries) > 0 {
+			if !sync {
+				if !n.volEnts {
+					n.durEnts, n.volEnts = storedEntries(n.ms), true
+				}
+				n.volCritical = true
+			}
 			n.ms.Append(rd.Entries)
-			n.persisted = true
+			wrote = true
 		}
 		if !raft.IsEmptyHardState(rd.HardState) {
 			s.o.checkHardState(s, n, rd.HardState)
+			if !sync && (rd.HardState.Term != n.hs.Term || rd.HardState.Vote != n.hs.Vote) {
+				n.volCritical = true
+			}
 			n.ms.SetHardState(rd.HardState)
 			n.hs = rd.HardState
-			n.persisted = true
+			wrote = true
+		}
+		if sync {
+			n.synced()
+		} else if wrote {
+			n.volatile = true
+			s.probe("ready-without-mustsync")
 		}
 	})
 }
 
+// synced: everything written so far is durable.
+func (n *node) synced() {
+	n.persisted = true
+	n.durHS = n.hs
+	n.volatile, n.volEnts, n.durEnts, n.volCritical, n.volExternal = false, false, nil, false, false
+}
+
+func storedEntries(ms *raft.MemoryStorage) []pb.Entry {
+	fi, _ := ms.FirstIndex()
+	li, _ := ms.LastIndex()
+	if li < fi {
+		return nil
+	}
+	ents, _ := ms.Entries(fi, li+1, math.MaxUint64)
+	return append([]pb.Entry(nil), ents...)
+}
+
+// powerFail is a crash of the machine: by a tape choice (0 = no) the disk
+// loses the whole volatile suffix, i.e. the node will restart from the state
+// of its last sync.  What the library's contract guarantees to survive is
+// term, vote and entries — "updated on stable storage before responding to
+// RPCs" — not the commit index: losing an unsynced commit index is legal and
+// is not a regression of the persisted commit.  Losing a term, vote or entries
+// that the node already answered messages on is the violation.
+func (s *sim) powerFail(n *node, stepName string) {
+	s.crash(n, stepName)
+	if !n.volatile || s.tape.Draw(2) == 0 {
+		return
+	}
+	s.fault("crash-lost-unsynced-ready")
+	s.hash(0xC1, n.id, n.durHS.Term, n.durHS.Vote, n.durHS.Commit)
+	s.logf("  node %d loses its unsynced writes: hard state %d/%d/%d -> %d/%d/%d", n.id, n.hs.Term, n.hs.Vote, n.hs.Commit,
+		n.durHS.Term, n.durHS.Vote, n.durHS.Commit)
+	if n.volExternal {
+		switch {
+		case n.durHS.Term != n.hs.Term:
+			s.fail("hardstate/term-regressed", "node %d answered messages in term %d, but that term came in a Ready with MustSync=false and a crash lost it: the node is back in term %d",
+				n.id, n.hs.Term, n.durHS.Term)
+		case n.durHS.Vote != n.hs.Vote:
+			s.fail("hardstate/vote-regressed", "node %d sent its vote for %d in term %d, but the vote came in a Ready with MustSync=false and a crash lost it: persisted vote is %d again, the node can vote a second time in this term",
+				n.id, n.hs.Vote, n.hs.Term, n.durHS.Vote)
+		default:
+			s.fail("hardstate/entries-lost", "node %d answered messages after appending entries that came in a Ready with MustSync=false; a crash lost them", n.id)
+		}
+		return
+	}
+	if n.persisted {
+		ms := raft.NewMemoryStorage()
+		if snap, _ := n.ms.Snapshot(); !raft.IsEmptySnap(snap) {
+			ms.ApplySnapshot(snap) // snapshots and compactions are sync points: never part of the suffix
+		}
+		ents := n.durEnts
+		if !n.volEnts {
+			ents = storedEntries(n.ms)
+		}
+		ms.Append(ents)
+		ms.SetHardState(n.durHS)
+		n.ms = ms
+	} // else: nothing durable at all, start() makes it the fresh node it still is
+	n.hs = n.durHS
+	n.volatile, n.volEnts, n.durEnts, n.volCritical, n.volExternal = false, false, nil, false, false
+	n.view, n.dirty = nil, true
+}
+
 func (s *sim) send(n *node, msgs []pb.Message) {
+	if n.volCritical && len(msgs) > 0 {
+		n.volExternal = true
+	}
 	for i := range msgs {
 		m := msgs[i]
 		// a transport serialises at send time: do not alias the sender's log
@@ -738,7 +840,7 @@ func (s *sim) crashAt(n *node, at int) {
 	if at == crashNow {
 		s.fault(crashNames[at])
 		s.logf("crash %d now", n.id)
-		s.crash(n, crashNames[at])
+		s.powerFail(n, crashNames[at])
 		s.o.checkNode(s, n)
 		return
 	}
@@ -776,6 +878,7 @@ func (s *sim) compact(n *node, keep uint64) {
 			to -= keep
 		}
 		n.ms.Compact(to)
+		n.synced() // saving a snapshot fsyncs the log written before it
 	})
 	n.dirty = true
 	s.settle(n)
